@@ -1,4 +1,5 @@
 import Verif.Proofs.NameRun
+import Verif.Proofs.IndexEntries
 import Verif.Properties.C01Move
 
 /-!
@@ -80,5 +81,18 @@ theorem nameWith_with_dependents_preserves_meaning (S : Setting) (fc : Facts) (x
   exact depLoop_preserves x key (Str.join ["#/definitions", S.n]) S.r _ (tableAfter S) S.rest hT ("", defn S.n)
     (by simp [tableAfter, List.lookup]) hqt hr S.toks hkdir S.hcanonToks (hops + 1) (by omega) hTgood _ S.d2 st'.doc hloop
     hent hpw hkk hkref hk2 had n p hg hga
+
+/-- **the `EntryOK` hypothesis for schema references, discharged from the index theorems**: every entry the analyzer's
+    schema reference map lists (C11.refs_exact) sits at a key that parses back (C04.keyTokens_key) to the position at which
+    the document holds (C12.resolves) a schema with that `$ref`.  What remains to assume about an entry is about its
+    strings only: a fragment-only `$ref` the table knows, canonically spelled tokens. -/
+theorem schema_entries_hold (f : Facts) (hf : C11.FactsOK f) (d : J) (hwf : C11.WF d) (hn : C12.NodupKeys d)
+    (hpk : ∀ kv ∈ d.getObj "paths", Doc.isPathKey kv.1 = true)
+    (hplain : ∀ p ∈ Spec.Index.allSchemas d, C04.PlainKey p.1)
+    (T : List (String × Pos))
+    (kv : String × String) (h : kv ∈ Flatten.refMap (· = "schema") (Analyzer.analyze f d))
+    (hfo : Flatten.hasFragmentOnly kv.2 = true) (hT : ∃ qc, T.lookup kv.2 = some qc)
+    (hc : AllCanon (Replace.keyTokens kv.1)) : EntryOK d T kv :=
+  Proofs.IndexEntries.entryOK_schema f hf d hwf hn hpk hplain T kv h hfo hT hc
 
 end C01
